@@ -51,15 +51,19 @@ theorem C03_bulk_progress_first (x : Exchange) (size : Nat) (oids : List Oid) (v
   unfold bulkFetcher at h
   cases hb : bulkVarbinds x [] oids size with
   | error e => simp [hb, bind, Except.bind] at h
-  | ok vbs =>
+  | ok first =>
     simp only [hb, bind, Except.bind] at h
-    split at h
-    · rename_i hc
-      simp only [pure, Except.pure, Except.ok.injEq] at h
-      rw [h] at hc
-      obtain ⟨p, hp, hlt, _⟩ := checkColumns_first _ _ _ _ _ hc
-      exact ⟨p, hp, hlt⟩
-    · simp at h
+    cases hc' : completeRow x oids oids.length first with
+    | error e => simp [hc'] at h
+    | ok vbs =>
+      simp only [hc'] at h
+      split at h
+      · rename_i hc
+        simp only [pure, Except.pure, Except.ok.injEq] at h
+        rw [h] at hc
+        obtain ⟨p, hp, hlt, _⟩ := checkColumns_first _ _ _ _ _ hc
+        exact ⟨p, hp, hlt⟩
+      · simp at h
 
 /-- A fetch that reports a non-advancing answer ends the loop at once: `faulty` in strict
     mode, normal end in lenient mode, and no further request is issued. -/
